@@ -112,7 +112,7 @@ def expected_close : List String := [
   "..break",
   "f.out = nil"]
 
-/-- with fix F26: `f.out = nil` also on the successful-move path -/
+/-- with fix F44: `f.out = nil` also on the successful-move path -/
 def expected_close_fixed : List String := [
   "if f.out == nil",
   ".return",
@@ -163,10 +163,10 @@ def closeCalls : List String :=
   ["f.gzipWriter.Close()", "f.out.Sync()", "f.out.Close()", "exclusiveRename(", "os.Exit(1)"]
 
 /-- **Semantic core of `Close()`** (relaxed in round 6 from equality with one frozen skeleton, which a harmless
-rewrite — e.g. clearing `f.out` in a `defer` instead of fix F26's extra statement — broke although the correspondence
+rewrite — e.g. clearing `f.out` in a `defer` instead of fix F44's extra statement — broke although the correspondence
 leg covers every path of `Close()`): the effect calls in source order are gzip close (error → exit), fsync (→ exit),
 close (→ exit), the optimistic exclusive rename (non-EEXIST error → exit), the revision-bump rename (non-EEXIST → exit).
-Whether `f.out` is cleared after a successful move (model parameter `Cfg.closeClears`, fix F26) is *probed on the real
+Whether `f.out` is cleared after a successful move (model parameter `Cfg.closeClears`, fix F44) is *probed on the real
 function* by the harness; both known shapes `expected_close` / `expected_close_fixed` have this core. -/
 theorem close_eq :
     effectCalls closeCalls Nsq.Gen.ToolsToFile.close =
